@@ -25,10 +25,28 @@ def apply_planted(entry, dst):
         open(p, 'w').write(s.replace(old, new))
 
 
+def seeded_entries():
+    """Breaking changes written by independent sub-agents, kept under
+    /verif/seeded/<id>/patch.diff."""
+    base = os.path.join(VERIF, 'seeded')
+    out = []
+    for d in sorted(os.listdir(base)) if os.path.isdir(base) else []:
+        pd = os.path.join(base, d, 'patch.diff')
+        if os.path.exists(pd):
+            exp = ['H1', 'H2', 'H3', 'H4', 'H5', 'H6', 'H7']
+            out.append(dict(name='seeded:' + d, expect=exp, patch=pd, edits=[]))
+    return out
+
+
 def run_planted(entry, seed, workers, worlds):
     scratch = tempfile.mkdtemp(prefix='verif-planted-')
     try:
         apply_planted(entry, scratch)
+        if entry.get('patch'):
+            p = subprocess.run(['patch', '-p1', '-s', '-d', scratch, '-i', entry['patch']],
+                               capture_output=True, text=True)
+            if p.returncode != 0:
+                raise RuntimeError('cannot apply %s: %s' % (entry['patch'], p.stdout + p.stderr))
         env = dict(os.environ)
         env.update(VERIF_REPO=scratch, VERIF_SEED=str(seed), VERIF_WORLDS=str(worlds),
                    VERIF_SKIP_SELFTEST='1', VERIF_REPLAY_DIR=os.path.join(scratch, 'replays'),
@@ -64,8 +82,8 @@ def main(seed, workers, planted, rest):
     from sim.planted import P
     names = set(rest)
     results = []
-    worlds = int(os.environ.get('VERIF_WORLDS', 500))
-    for e in P:
+    worlds = int(os.environ.get('VERIF_WORLDS', 1500))
+    for e in list(P) + seeded_entries():
         if names and e['name'] not in names:
             continue
         r = run_planted(e, seed, workers, worlds)
